@@ -9,6 +9,7 @@ import (
 
 	"github.com/bobertlo/gmars"
 
+	"verif/gen"
 	"verif/hx"
 	"verif/ref"
 )
@@ -428,7 +429,7 @@ func genAPICase(t *rapid.T) apiCase {
 	c.Cfg.Cycles = rapid.SampledFrom([]int{1, 3, 10}).Draw(t, "cycles")
 	c.Calls = genWarmup(t, c.Cfg.M)
 	n := rapid.IntRange(1, 60).Draw(t, "n")
-	if rapid.IntRange(0, 99).Draw(t, "long") == 0 {
+	if gen.Rare(t, "long", 7) {
 		n = rapid.IntRange(300, 1500).Draw(t, "nlong") // many rounds, resets and respawns on one simulator
 		c.Cfg.Cycles = rapid.SampledFrom([]int{10, 300, 1000}).Draw(t, "cycleslong")
 	}
